@@ -246,6 +246,9 @@ func H18a() {
 	}
 	var id string
 	k := vChoice(nt + 1)
+	if only := vParam("only", -1); only >= 0 {
+		vAssume(k == only) // development aid: a single family
+	}
 	if k == 0 {
 		vCover("free")
 		vTag("id")
